@@ -41,6 +41,7 @@ var _ = vl.Less
 func vJSON(c *Queue[int]) containers.VJSON {
 	return containers.VJSON{C: c, ToJSON: c.ToJSON, FromJSON: c.FromJSON,
 		Marshal: func() ([]byte, error) { return json.Marshal(c) },
+		Unmarshal: func(data []byte) error { return json.Unmarshal(data, c) },
 		Inv:     func() { binaryheap.VInv(c.heap) },
 		Step:    func() { c.Enqueue(v.Int("sx")); binaryheap.VInv(c.heap) },
 		Fresh:   func() containers.VJSON { return vJSON(NewWith[int](vl.Cmp)) },
